@@ -15,7 +15,6 @@ package main
 
 import (
 	"fmt"
-	"os"
 	"go/token"
 	"go/types"
 
@@ -106,13 +105,6 @@ func ruleNameAfterDot(c *Ctx, a *parserAnchors, t *tables) {
 			iff := blockIf(b)
 			if iff == nil {
 				continue
-			}
-			if os.Getenv("XJSDBG") != "" {
-				fmt.Fprintf(os.Stderr, "DBG block %d cond %v dep=%v\n", b.Index, iff.Cond, dependsOn(iff.Cond, readsCur))
-				if call, ok := iff.Cond.(*ssa.Call); ok {
-					cal := call.Call.StaticCallee()
-					fmt.Fprintf(os.Stderr, "DBG callee %v samepkg=%v pure=%v reads=%v\n", cal, cal != nil && cal.Pkg == f.Pkg, a.pureReader(cal), readsFieldDeep(cal, a.cur, 0))
-				}
 			}
 			if !dependsOn(iff.Cond, readsCur) {
 				continue
